@@ -237,10 +237,58 @@ def run(R):
                     "each ctx.%s() runs in its own handler (covering Exception) inside the loop: one failing context does not stop the others" % hook,
                     "ctx.%s() is not individually guarded inside the loop: the first failing %s() skips the remaining contexts, which are later "
                     "paused/resumed out of step" % (hook, hook))
+        # "phase" flags of a resume loop written in two phases (up to the first failure / after it): a boolean local that starts False,
+        # is set True only inside a handler of the loop that records the caught exception (after the record), and is never set False
+        # in the loop.  Behind the flag's true edge a failure has been recorded already: a hook failing there is a *later* failure.
+        phase_flags = set()
+        if hook == "resume":
+            for nm_ in set(t_.id for a_ in ast.walk(m.node) if isinstance(a_, ast.Assign) for t_ in a_.targets if isinstance(t_, ast.Name)):
+                sets_ = [a_ for a_ in ast.walk(m.node) if isinstance(a_, ast.Assign) and any(isinstance(t_, ast.Name) and t_.id == nm_ for t_ in a_.targets)]
+                if not sets_ or not all(isinstance(a_.value, ast.Constant) and isinstance(a_.value.value, bool) for a_ in sets_):
+                    continue
+                inside_ = [a_ for a_ in sets_ if any(a_ is y for y in ast.walk(lp))]
+                outside_ = [a_ for a_ in sets_ if a_ not in inside_]
+                if not inside_ or not all(a_.value.value is True for a_ in inside_) or not outside_ or not all(a_.value.value is False for a_ in outside_):
+                    continue
+                good_ = True
+                for a_ in inside_:
+                    hs_ = [x for x in q.ancestors(a_) if isinstance(x, ast.ExceptHandler) and any(x is y for y in ast.walk(lp))]
+                    if not hs_ or not hs_[0].name:
+                        good_ = False
+                        break
+                    h_ = hs_[0]
+                    recs_ = [x for x in h_.body if isinstance(x, ast.Assign) and isinstance(x.value, ast.Name) and x.value.id == h_.name]
+                    # the record comes first in the handler, the flag is set in the handler's own statement list after it
+                    if not recs_ or not any(a_ is x for x in h_.body) or h_.body.index(recs_[0]) > [i for i, x in enumerate(h_.body) if x is a_][0]:
+                        good_ = False
+                if good_:
+                    phase_flags.add(nm_)
+
+        def later_phase(node_ast):
+            """is this construct of the loop reachable only behind the true edge of a phase flag?"""
+            child = node_ast
+            for a_ in q.ancestors(node_ast):
+                if isinstance(a_, ast.If):
+                    k_, s_, pos_ = q.atom_test(a_.test)
+                    if k_ == "truth" and s_ in phase_flags:
+                        in_body = any(child is x for x in a_.body)
+                        if (pos_ and in_body) or (not pos_ and not in_body):
+                            return True
+                if a_ is lp:
+                    break
+                child = a_
+            return False
         # the handler records the exception (for the first one at least) and the recorded value is what the task is failed with
         for n, c in kit.call_sites(m, lambda c: q.attr_call(c)[1] == hook and isinstance(q.attr_call(c)[0], ast.Name) and q.attr_call(c)[0].id != "self"):
             trys = [t for t in kit.enclosing_try_handlers(c) if any(t is sub for sub in ast.walk(lp))]
             for h in [h for t in trys[:1] for h in t.handlers if kit.handler_covers(h, "Exception", hier)]:
+                if phase_flags and later_phase(trys[0]):
+                    # a later failure: it must NOT replace the recorded one - the handler records nothing and completes nothing
+                    stores_ = [x for x in ast.walk(h) if isinstance(x, ast.Assign) and h.name and isinstance(x.value, ast.Name) and x.value.id == h.name]
+                    R.check(not stores_ and not any(isinstance(x, (ast.Raise, ast.Return, ast.Break)) for x in ast.walk(h)), "C06.HOOK-ALL", m.qualname + ":which-error:later", R.site(m, h),
+                            "a resume() that fails after the first failure was recorded is dropped (the first one is kept)",
+                            "a later resume() failure can replace the first one")
+                    continue
                 hn = kit.one(mcfg.nodes_for(h), "handler node")
                 recs = [x for x in mcfg.nodes if x.kind == "stmt" and isinstance(x.ast, ast.Assign) and isinstance(x.ast.value, ast.Name) and x.ast.value.id == h.name
                         and any(x.ast is y for y in ast.walk(h))]
@@ -272,6 +320,12 @@ def run(R):
                             return "T" if pos_ else "F"
                         return None
                     pf_ = kit.path_avoiding_guard(mcfg, recs, first_only, N, sources=[hn]) if recs else None
+                    if pf_ is not None and phase_flags and not later_phase(trys[0]):
+                        # first phase of a two-phase loop: this handler runs at most once (it ends the phase), so what it records is the first failure
+                        ends_phase = any(isinstance(x, ast.Assign) and any(isinstance(t_, ast.Name) and t_.id in phase_flags for t_ in x.targets) for x in h.body)
+                        under_flag = any(isinstance(a_, ast.If) and q.atom_test(a_.test)[0] == "truth" and q.atom_test(a_.test)[1] in phase_flags for a_ in q.ancestors(trys[0]))
+                        if ends_phase and under_flag:
+                            pf_ = None
                     R.check(pf_ is None and bool(recs), "C06.HOOK-ALL", m.qualname + ":which-error", R.site(m, h),
                             "the first failing resume() is the one that is kept", "a later resume() failure can replace the first one", mcfg.fmt_path(pf_) if pf_ else None)
                 if comp_nodes:
